@@ -159,5 +159,4 @@ theorem hybrid_disjoint (x K T : Nat) (hK : 1 ≤ K) :
     rintro ⟨a, b⟩; have := hzero (s.e + w - 1) a b; rw [hhi] at this; cases this
   omega
 
-#print axioms hybrid_disjoint
 end P.Bits
